@@ -160,13 +160,13 @@ fn eval_as_prim<T>(c: &(Pat, Pat, u64), obs: &mut Obs) -> Result<(), String>
 where
     T: Int + AsPrimitive<u8> + AsPrimitive<u16> + AsPrimitive<u32> + AsPrimitive<u64> + AsPrimitive<u128> + AsPrimitive<usize>
         + AsPrimitive<i8> + AsPrimitive<i16> + AsPrimitive<i32> + AsPrimitive<i64> + AsPrimitive<i128> + AsPrimitive<isize> + AsPrimitive<f32> + AsPrimitive<f64>
-        + AsPrimitive<T::U> + AsPrimitive<T::I> + AsPrimitive<T::Fam1U> + AsPrimitive<T::Fam3I>,
+        + AsPrimitive<T::U> + AsPrimitive<T::I> + AsPrimitive<T::Fam1U> + AsPrimitive<T::Fam3I> + AsPrimitive<T::Fam1I> + AsPrimitive<T::Fam3U>,
     T: CastFrom<u8> + CastFrom<u16> + CastFrom<u32> + CastFrom<u64> + CastFrom<u128> + CastFrom<usize> + CastFrom<i8> + CastFrom<i16> + CastFrom<i32> + CastFrom<i64> + CastFrom<i128> + CastFrom<isize>
         + CastFrom<f32> + CastFrom<f64> + CastFrom<char> + CastFrom<bool>,
     u8: CastFrom<T> + AsPrimitive<T>, u16: CastFrom<T> + AsPrimitive<T>, u32: CastFrom<T> + AsPrimitive<T>, u64: CastFrom<T> + AsPrimitive<T>, u128: CastFrom<T> + AsPrimitive<T>, usize: CastFrom<T> + AsPrimitive<T>,
     i8: CastFrom<T> + AsPrimitive<T>, i16: CastFrom<T> + AsPrimitive<T>, i32: CastFrom<T> + AsPrimitive<T>, i64: CastFrom<T> + AsPrimitive<T>, i128: CastFrom<T> + AsPrimitive<T>, isize: CastFrom<T> + AsPrimitive<T>,
     f32: CastFrom<T> + AsPrimitive<T>, f64: CastFrom<T> + AsPrimitive<T>, char: AsPrimitive<T>, bool: AsPrimitive<T>,
-    T::U: CastFrom<T>, T::I: CastFrom<T>, T::Fam1U: CastFrom<T>, T::Fam3I: CastFrom<T>,
+    T::U: CastFrom<T>, T::I: CastFrom<T>, T::Fam1U: CastFrom<T>, T::Fam3I: CastFrom<T>, T::Fam1I: CastFrom<T>, T::Fam3U: CastFrom<T>,
 {
     let x: T = ld(&c.0);
     obs.nt();
@@ -199,6 +199,11 @@ where
     ck!("AsPrimitive<I> (same family)", outcome(|| Pat(AsPrimitive::<T::I>::as_(x).store())), outcome(|| Pat(As::as_::<T::I>(x).store())));
     ck!("AsPrimitive<1-digit U> (same family)", outcome(|| Pat(AsPrimitive::<T::Fam1U>::as_(x).store())), outcome(|| Pat(As::as_::<T::Fam1U>(x).store())));
     ck!("AsPrimitive<3-digit I> (same family)", outcome(|| Pat(AsPrimitive::<T::Fam3I>::as_(x).store())), outcome(|| Pat(As::as_::<T::Fam3I>(x).store())));
+    ck!("AsPrimitive<1-digit I> (same family)", outcome(|| Pat(AsPrimitive::<T::Fam1I>::as_(x).store())), outcome(|| Pat(As::as_::<T::Fam1I>(x).store())));
+    ck!("AsPrimitive<3-digit U> (same family)", outcome(|| Pat(AsPrimitive::<T::Fam3U>::as_(x).store())), outcome(|| Pat(As::as_::<T::Fam3U>(x).store())));
+    // and against the reference value, so that a slip shared by As and AsPrimitive would still show (C09 covers As itself)
+    ck!("AsPrimitive<3-digit U> value", outcome(|| AsPrimitive::<T::Fam3U>::as_(x).z()), Outcome::Returned(x.z().wrap(<T::Fam3U as Int>::W as u64, false)));
+    ck!("AsPrimitive<3-digit I> value", outcome(|| AsPrimitive::<T::Fam3I>::as_(x).z()), Outcome::Returned(x.z().wrap(<T::Fam3I as Int>::W as u64, true)));
     Ok(())
 }
 
